@@ -276,6 +276,22 @@ def check(case):
         if C.canon(swapped) != base:
           out.add('tags-lost-through-diff', 'mismatch', '', feat + ':same-named-tags', str(d)[:600])
           return out
+      # third pair: in old, Base nodes are LeafCls nodes with a tag on the parameter only LeafCls
+      # has (callable change and tag removal in one diff)
+      older = copy.deepcopy(root)
+      changed = False
+      for b in reachable_buildables(older):
+        if b.__fn_or_cls__ is things.Base:
+          fdl.update_callable(b, things.LeafCls)
+          fdl.add_tag(b, 'extra', vtags.ALL[case['T']])
+          changed = True
+      if changed:
+        out.cls('callable_change_and_tag_removal')
+        d = diffing.build_diff(older, root)
+        diffing.apply_diff(d, older)
+        if C.canon(older) != base:
+          out.add('tags-lost-through-diff', 'mismatch', '', feat + ':callable-change', str(d)[:600])
+          return out
     except Exception as e:  # pylint: disable=broad-except
       out.add('diff-of-tags-raises', exc_kind(e), fiddle_frame(e), feat, repr(e)[:300])
       return out
